@@ -148,8 +148,9 @@ type Lit struct {
 	Atom
 	Val  bool
 	At   ssa.Instruction
-	Pure bool // the condition reads memory only (two evaluations on one path agree unless a store intervenes)
-	Inl  bool // the branch belongs to an inlined helper
+	Pure bool      // the condition reads memory only (two evaluations on one path agree unless a store intervenes)
+	Inl  bool      // the branch belongs to an inlined helper
+	Subj ssa.Value // the call result a nil test is about (nil if it may differ between two tests on a path)
 }
 
 func (l Lit) String() string {
@@ -332,11 +333,14 @@ func (w *World) enumPaths(fn *ssa.Function, o EnumOpts) EnumResult {
 		mem     map[*ssa.Alloc]ssa.Value
 		param   map[*ssa.Parameter]ssa.Value
 		calls   map[*ssa.Call][]ssa.Value
-		inl     map[*ssa.Function]bool // callees inlined on this path (each at most once)
-		order   []byte                 // 'L' / 'E' in program order
+		loads   map[*ssa.UnOp]ssa.Value // value a load of a multi-store local had when the path executed it
+		inl     map[*ssa.Function]bool  // callees inlined on this path (each at most once)
+		order   []byte                  // 'L' / 'E' in program order
 	}
-	use := func(f *frame) { w.phiEnv, w.memEnv, w.paramEnv, w.callEnv = f.phi, f.mem, f.param, f.calls }
-	clear := func() { w.phiEnv, w.memEnv, w.paramEnv, w.callEnv = nil, nil, nil, nil }
+	use := func(f *frame) {
+		w.phiEnv, w.memEnv, w.paramEnv, w.callEnv, w.loadEnv = f.phi, f.mem, f.param, f.calls, f.loads
+	}
+	clear := func() { w.phiEnv, w.memEnv, w.paramEnv, w.callEnv, w.loadEnv = nil, nil, nil, nil, nil }
 	finish := func(f frame, end string, rets []ssa.Value) {
 		if len(res.Paths) >= o.MaxPaths {
 			res.Truncated = true
@@ -433,6 +437,7 @@ func (w *World) enumPaths(fn *ssa.Function, o EnumOpts) EnumResult {
 			mem:     make(map[*ssa.Alloc]ssa.Value, len(f.mem)),
 			param:   make(map[*ssa.Parameter]ssa.Value, len(f.param)),
 			calls:   make(map[*ssa.Call][]ssa.Value, len(f.calls)),
+			loads:   make(map[*ssa.UnOp]ssa.Value, len(f.loads)),
 			inl:     make(map[*ssa.Function]bool, len(f.inl)),
 		}
 		if depth == 0 {
@@ -443,6 +448,9 @@ func (w *World) enumPaths(fn *ssa.Function, o EnumOpts) EnumResult {
 		}
 		for k, v := range f.mem {
 			nf.mem[k] = v
+		}
+		for k, v := range f.loads {
+			nf.loads[k] = v
 		}
 		for k, v := range f.onPath {
 			nf.onPath[k] = v
@@ -504,6 +512,16 @@ func (w *World) enumPaths(fn *ssa.Function, o EnumOpts) EnumResult {
 			in := b.Instrs[idx]
 			use(&nf)
 			switch x := in.(type) {
+			case *ssa.UnOp:
+				// a load of a local that is stored to more than once: its value is the one the cell holds NOW
+				// (a later `err = wrap(err)` must not change what this load meant)
+				if x.Op == token.MUL {
+					if a, ok := w.resolveAddr(x.X).(*ssa.Alloc); ok {
+						if s, ok := nf.mem[a]; ok && s != nil && w.allocSingleStore(a) == nil {
+							nf.loads[x] = s
+						}
+					}
+				}
 			case *ssa.Store:
 				if a, ok := w.resolveAddr(x.Addr).(*ssa.Alloc); ok {
 					nf.mem[a] = w.Resolve(x.Val)
@@ -633,6 +651,7 @@ func (w *World) enumPaths(fn *ssa.Function, o EnumOpts) EnumResult {
 					}
 					return
 				}
+				w.loadEnv = nf.loads
 				w.branch(x, nf.phi, nf.mem, nf.param, nf.calls, func(succ int, lit *Lit) {
 					g := nf
 					if lit != nil {
@@ -645,6 +664,11 @@ func (w *World) enumPaths(fn *ssa.Function, o EnumOpts) EnumResult {
 						if !o.NoPrune {
 							for _, l := range g.lits {
 								if l.Atom == lit.Atom && l.Val != lit.Val && lit.Pure && !storedBetween(g.effects, l, lit.Atom) {
+									res.Pruned++
+									return
+								}
+								// the very same call result tested against nil twice (err, then a wrapped err)
+								if l.Atom == lit.Atom && l.Val != lit.Val && l.Subj != nil && l.Subj == lit.Subj {
 									res.Pruned++
 									return
 								}
@@ -856,8 +880,10 @@ func storedBetween(effects []Effect, l Lit, a Atom) bool {
 func (w *World) branch(x *ssa.If, phi map[*ssa.Phi]ssa.Value, mem map[*ssa.Alloc]ssa.Value, param map[*ssa.Parameter]ssa.Value, calls map[*ssa.Call][]ssa.Value, take func(succ int, lit *Lit)) {
 	w.phiEnv, w.memEnv, w.paramEnv, w.callEnv = phi, mem, param, calls
 	w.condAt = x
+	w.condSubj = nil
 	op, l, r, neg, konst := w.condAtom(x.Cond, 0)
-	w.condAt = nil
+	subj := w.condSubj
+	w.condAt, w.condSubj = nil, nil
 	w.phiEnv, w.memEnv, w.paramEnv, w.callEnv = nil, nil, nil, nil
 	if konst != nil {
 		v := *konst
@@ -875,8 +901,8 @@ func (w *World) branch(x *ssa.If, phi map[*ssa.Phi]ssa.Value, mem map[*ssa.Alloc
 	w.phiEnv, w.memEnv, w.paramEnv, w.callEnv = phi, mem, param, calls
 	pure := w.pureValue(x.Cond, 0)
 	w.phiEnv, w.memEnv, w.paramEnv, w.callEnv = nil, nil, nil, nil
-	take(0, &Lit{Atom: at, Val: tv, At: x, Pure: pure})
-	take(1, &Lit{Atom: at, Val: !tv, At: x, Pure: pure})
+	take(0, &Lit{Atom: at, Val: tv, At: x, Pure: pure, Subj: subj})
+	take(1, &Lit{Atom: at, Val: !tv, At: x, Pure: pure, Subj: subj})
 }
 
 // condAtom decomposes a boolean value into (op,l,r) possibly negated, or a constant.
@@ -913,6 +939,41 @@ func (w *World) condAtom(v ssa.Value, depth int) (op, l, r string, neg bool, kon
 				if isNilConst(bb) && w.isJobPtr(a.Type()) && w.knownNonNil(a, w.condAt, 0) {
 					b := x.Op.String() == "!="
 					return "", "", "", false, &b
+				}
+			}
+			// errors.Wrap(e, …) is nil exactly when e is: compare e itself (so that a re-test of a wrapped error
+			// is the same literal as the test of the original)
+			if x.Op.String() == "==" || x.Op.String() == "!=" {
+				a, bb := w.Resolve(x.X), w.Resolve(x.Y)
+				if isNilConst(a) {
+					a, bb = bb, a
+				}
+				if isNilConst(bb) {
+					inner, changed := a, false
+					for i := 0; i < 6; i++ {
+						c, ok := inner.(*ssa.Call)
+						if !ok || len(c.Call.Args) == 0 {
+							break
+						}
+						n := calleeName(&c.Call)
+						if !(strings.HasSuffix(n, "errors.Wrap") || strings.HasSuffix(n, "errors.Wrapf") || strings.HasSuffix(n, "errors.WithStack") || strings.HasSuffix(n, "errors.WithMessage") || strings.HasSuffix(n, "errors.WithMessagef")) {
+							break
+						}
+						inner, changed = w.Resolve(c.Call.Args[0]), true
+					}
+					if changed {
+						if isNilConst(inner) {
+							b := x.Op.String() == "=="
+							return "", "", "", false, &b
+						}
+						if w.sentinelError(inner) || freshError(inner) {
+							b := x.Op.String() == "!="
+							return "", "", "", false, &b
+						}
+						w.condSubj = subjOf(inner)
+						return x.Op.String(), w.AP(inner), "nil", false, nil
+					}
+					w.condSubj = subjOf(a)
 				}
 			}
 			// two constants (e.g. an enum value returned by a spliced decision helper compared with a case label)
@@ -1024,4 +1085,33 @@ func freshError(v ssa.Value) bool {
 		return true
 	}
 	return false
+}
+
+// subjOf: the instruction whose one result a nil test is about, when that result cannot differ between two
+// tests on one path: a call (or a component of its result tuple) in a block that is not part of a cycle.
+func subjOf(v ssa.Value) ssa.Value {
+	c := v
+	if e, ok := v.(*ssa.Extract); ok {
+		c = e.Tuple
+	}
+	call, ok := c.(*ssa.Call)
+	if !ok || call.Block() == nil {
+		return nil
+	}
+	b := call.Block()
+	seen := map[*ssa.BasicBlock]bool{}
+	stack := append([]*ssa.BasicBlock(nil), b.Succs...)
+	for len(stack) > 0 {
+		n := stack[len(stack)-1]
+		stack = stack[:len(stack)-1]
+		if n == b {
+			return nil
+		}
+		if seen[n] {
+			continue
+		}
+		seen[n] = true
+		stack = append(stack, n.Succs...)
+	}
+	return v
 }
